@@ -1,6 +1,6 @@
-(* C13 — On partial failure the count names a prefix that really moved. Theorems only; proofs in Proofs/TransferP.v *)
+(* C13 — On partial failure the count names a prefix that really moved. Theorems only; proofs in Proofs/TransferP.v, Proofs/TransferFailP.v *)
 From Coq Require Import List NArith Bool Arith Permutation Strings.Byte.
-From Sftp Require Import Base.GoSem Xfer.Transfer Proofs.TransferP.
+From Sftp Require Import Base.GoSem Xfer.Transfer Proofs.TransferP Proofs.TransferE2EP Proofs.TransferFailP.
 Import ListNotations.
 
 (* whatever the set of failing chunks and whatever order the replies arrive in: the reduce keeps an error that was
@@ -48,6 +48,59 @@ Theorem C13_readFrom_pinned_refuted :
 Proof. exact readFromSeq_pinned_refuted. Qed.
 Print Assumptions C13_readFrom_pinned_refuted.
 
+(* ===== for an ARBITRARY failure plan of the server (any set of failing offsets, any status codes, any payload limit) ===== *)
+
+(* one chunk and the sequential multi-chunk ReadAt: what is returned is an intact, contiguous prefix of the requested
+   window of the file; nil only if the window was filled (so a short count never comes with nil); io.EOF only at the true
+   end of the file (unless the server itself answers status EOF early) *)
+Theorem C13_readChunkAt_prefix : forall fuel s off want acc d' e,
+  readChunkAt fuel s off want acc = (d', e) ->
+  exists d, d' = acc ++ d /\ prefix_of_window d s off /\ length d <= want /\ (e = None -> length d = want) /\
+            (e = Some xeof -> no_injected_eof s -> length (file s) <= off + length d).
+Proof. exact readChunkAt_prefix. Qed.
+Print Assumptions C13_readChunkAt_prefix.
+
+Theorem C13_readSeq_prefix : forall fuel s off n p acc d' e,
+  1 <= p -> n <= fuel ->
+  readSeq (chunks fuel off n p) s acc = (d', e) ->
+  exists d, d' = acc ++ d /\ prefix_of_window d s off /\ length d <= n /\ (e = None -> length d = n) /\
+            (e = Some xeof -> no_injected_eof s -> length (file s) <= off + length d).
+Proof. exact readSeq_prefix. Qed.
+Print Assumptions C13_readSeq_prefix.
+
+(* concurrent ReadAt: for every number k of chunks dispatched before the cancellation took effect and every order in which
+   those workers report: the count bytes returned with the error are exactly the file's, intact and contiguous *)
+Theorem C13_readConc_prefix : forall s off len p k arrival n e b,
+  1 <= p <= maxTx s ->
+  Permutation arrival (firstn k (chunks len off len p)) ->
+  readConc s off len p arrival = (n, Some e, b) ->
+  prefix_of_window b s off /\ length b = n /\ n <= len.
+Proof. exact readConc_prefix. Qed.
+Print Assumptions C13_readConc_prefix.
+
+(* ... and a nil error from the concurrent path means the whole window *)
+Theorem C13_readConc_nil_means_all : forall s off len p arrival n b,
+  1 <= p <= maxTx s ->
+  Permutation arrival (chunks len off len p) ->
+  readConc s off len p arrival = (n, None, b) ->
+  n = len /\ b = firstn len (skipn off (file s)) /\ length b = len.
+Proof. exact readConc_nil_means_all. Qed.
+Print Assumptions C13_readConc_nil_means_all.
+
+(* sequential WriteAt: whatever chunks the server rejects, the count names exactly the bytes stored (contiguous from the
+   offset: the file is the old one with the first m bytes of the buffer spliced in), nil means all, and the error is the
+   one the server gave for the first rejected chunk *)
+Theorem C13_writeSeq_prefix : forall fuel s off n p b boff w s' w' e,
+  1 <= p -> n <= fuel -> n <= length b - boff ->
+  writeSeq (chunks fuel off n p) s b boff w = (s', w', e) ->
+  exists m, m <= n /\ w' = w + m /\ s' = with_file s (splice (file s) off (firstn m (skipn boff b))) /\
+            (e = None -> m = n) /\ (forall c, e = Some (XStatus c) -> wfail s (off + m) = Some c).
+Proof. exact writeSeq_prefix. Qed.
+Print Assumptions C13_writeSeq_prefix.
+
+(* NOT PROVED (tied by family c13 on every run): the concurrent write paths (writeAtConcurrent, ReadFromWithConcurrency)
+   under failures - every dispatched chunk that does not fail is stored, the lowest failing offset decides count and error,
+   and the prefix below it is intact in the file. *)
 Example C13_nonvacuous :
   let s := mkSrv (pattern 0 10) 100 (fun o => if o =? 5 then Some 4%N else None) (fun _ => None) in
   let o := mkOpts 3 2 true false false in
